@@ -72,6 +72,8 @@ def rule_M(rep, db):
                    "move_if_rvalue (flow-sensitive, constructor initialisers included)", floor=200)
     rep.rule("M5", "move_if_rvalue<X>(e) / std::forward<X>(e): X is the type of the forwarding parameter e is rooted in (an rvalue first "
                    "argument must not make a second, lvalue argument movable)", floor=100)
+    rep.rule("M7", "an lvalue argument is never handed to a helper whose body moves from that (non-const lvalue reference) parameter "
+                   "(one-level moves-from summaries of the callees)", floor=1)
     rep.rule("M6", "a forwarding parameter instantiated as a non-const lvalue reference is never modified (no mutating std algorithm over "
                    "its elements, no mutating member call)", floor=50)
     rep.rule("M2", "storage reached through a forwarding reference is only moved through std::forward / "
@@ -111,7 +113,28 @@ def rule_M(rep, db):
             for sub in subs:
                 n5 += M.m5_function(u, sub, lambda name, site, X, pt: h5.append((name, site, X, pt)))
                 n6 += M.m6_function(u, sub, lambda name, site, what: h6.append((name, site, what)))
+            n7 = n5b = 0
+            h7, h5b = [], []
+            for sub in subs:
+                n7 += M.m7_function(db, u, sub, lambda name, site, callee, msite: h7.append((name, site, callee, msite)))
+                n5b += M.m5b_function(u, sub, lambda site, X, through: h5b.append((site, X, through)))
             psite = F.primary_site(fn)
+            for (name, site, callee, msite) in h7:
+                k2 = "%s|%s->%s" % (F.fn_name(fn), name, callee.split("::")[-2] + "::" + callee.split("::")[-1])
+                if ("M7", k2, site) not in seen:
+                    seen.add(("M7", k2, site))
+                    rep.fail("M7", k2, site, F.describe(fn), why="lvalue argument `%s` is handed to %s, which moves from that parameter (at %s): the caller's object is stolen from" % (name, callee, msite))
+            if n7 and not h7 and ("M7", F.fn_name(fn), psite) not in seen:
+                seen.add(("M7", F.fn_name(fn), psite))
+                rep.ok("M7", "%s|M7" % F.fn_name(fn), psite, F.describe(fn), how="helpers that move get rvalue arguments only", detail={"sites": n7})
+            for (site, X, through) in h5b:
+                k2 = "%s|M5b" % F.fn_name(fn)
+                if ("M5b", k2, site) not in seen:
+                    seen.add(("M5b", k2, site))
+                    rep.fail("M5", k2, site, F.describe(fn), why="every argument of this instantiation is an lvalue, yet storage reached through %s is moved (forwarded as %s)" % (through, X))
+            if n5b and not h5b and ("M5b", F.fn_name(fn), psite) not in seen:
+                seen.add(("M5b", F.fn_name(fn), psite))
+                rep.ok("M5", "%s|M5b" % F.fn_name(fn), psite, F.describe(fn), how="all-lvalue instantiation moves nothing reached through wrappers / iterators", detail={"sites": n5b})
             for (rid, n_, hits_) in (("M5", n5, h5), ("M6", n6, h6)):
                 if not n_ and not hits_:
                     continue
